@@ -25,8 +25,8 @@ from corr.harness import COQ, VERIF, coq_build, run_model, _run, dec
 sys.path.insert(0, os.path.join(VERIF, "tx"))
 
 TB = [
-    "tx/tx_c05.py (translator: AST scan of every %-format / str.format / f-string whose template is XML, template lexer, local dataflow for escape(); cross-validated on every run by instantiating each template with markers and parsing it with lxml, and by a marker run through the public entry points)",
-    "the enumeration of public string-accepting entry points (ENTRY_POINTS in tx/tx_c05.py): a hole that no enumerated entry point reaches with caller text and that was exercised is classified as a library-made value (observed values recorded in the evidence)",
+    "tx/tx_c05.py (translator: AST scan of every %-format / str.format / f-string whose template is XML, template lexer, local dataflow for escape(); cross-validated on every run by instantiating each template with markers and parsing it with lxml, by a marker run through the public entry points (taint), and by a second run with metacharacters that shows the escaping each reached hole really applies)",
+    "the enumeration of public string-accepting entry points (build_entry_points in tx/tx_c05.py): a hole that no enumerated entry point reaches with caller text is classified as a library-made value only if it was exercised and every expression it can receive through the package's call sites is literal text, an integer, or listed in LIBRARY_MADE of tx/tx_c05.py (observed values recorded in the evidence)",
     "libxml2 as configured by pptx.oxml.parse_xml is represented by the slot lexers of model/Escape.v (AttValue, CharData, references, line-end and attribute-value normalisation); tied by the per-sink and the grid correspondence, not verified",
     "lxml attribute / text assignment (the third kind of sink) escapes on serialisation: trusted, exercised by the oracle's save + re-open on every case",
 ]
@@ -132,13 +132,16 @@ def probe_outcome(probe, payload, base=None):
         return ("broken", "slot element not found")
     if probe["attr"] == "":
         val = el.text or ""
+        el.text = None
     elif probe["attr"] == "xmlns":
         return ("ok", None, None)
     else:
         val = el.get(probe["attr"])
         if val is None:
             return ("broken", "attribute missing")
-    shape = (elem_count(root), len(el.attrib), len(el), tuple(sorted((k or "", v) for k, v in el.nsmap.items())))
+        el.set(probe["attr"], "")
+    # everything but the slot value has to be what it is for a benign value
+    shape = etree.tostring(root, method="c14n")
     if base is not None and shape != base:
         return ("broken", "structure changed")
     return ("ok", val, shape)
@@ -278,7 +281,11 @@ def ensure_runner(ck):
 def nobl_quirk(ctx_code, s):
     """libxml2 with remove_blank_text drops a leading white-space run that is directly followed by a bare
     carriage return (blank-text heuristic); not modelled, strings with C0 controls only."""
-    return ctx_code == "t" and "\r" in s and s[:1] in (" ", "\t", "\n")
+    if ctx_code != "t":
+        return False
+    if "<![CDATA[" in s and any(c in s for c in " \t\n\r"):
+        return True      # a white-space-only chunk next to a CDATA section may be dropped as well
+    return "\r" in s and s[:1] in (" ", "\t", "\n")
 
 
 # ----------------------------------------------------------------------------- diagnostics
